@@ -26,13 +26,21 @@ import (
 //
 // https://docs.microsoft.com/en-us/typography/opentype/spec/cmap#format-0-byte-encoding-table
 func decodeFormat0(data []byte, code2rune func(c int) rune) (Subtable, error) {
-	if code2rune == nil {
-		code2rune = unicode
-	}
-
 	data = data[6:]
 	if len(data) != 256 {
 		return nil, fmt.Errorf("cmap: format 0: expected 256 bytes, got %d", len(data))
+	}
+
+	if code2rune != nil {
+		// The codes are not unicode (e.g. Mac Roman): translate them, like
+		// the other formats do.
+		res := Format4{}
+		for code, gid := range data {
+			if gid != 0 {
+				res[uint16(code2rune(code))] = glyph.ID(gid)
+			}
+		}
+		return res, nil
 	}
 
 	res := &Format0{}
